@@ -84,10 +84,25 @@ class C12(Prop):
                 sizes.add(1000 * 2 ** e + d)
                 sizes.add(1024 * 2 ** e + d)
         sizes.update(rng.randrange(0, 2 ** 50) for _ in range(20000 if tier == "thorough" else 300))
-        for s in sorted(sizes):
-            out.append({"op": "auto", "size": str(s), "clauses": ["C12.auto"]})
+        autos = [{"op": "auto", "size": str(s), "clauses": ["C12.auto"]} for s in sizes]
+        # the automatic choice as met through create: real (sparse) payloads around the first thresholds,
+        # in several layouts (single file, directories, content behind symbolic links), same chain
+        lays = ["single", "dir", "symdir", "symfile", "many"]
+        n = 0
+        for e in ((14, 15, 16) if tier == "thorough" else (14, 15)):
+            for d in ((-1, 0, 1, 999) if tier == "thorough" else (0, 1)):
+                for lay in lays:
+                    n += 1
+                    if tier != "thorough" and e == 15 and n % 2:
+                        continue
+                    autos.append({"op": "autocreate", "size": str(1000 * 2 ** e + d), "layout": lay,
+                                  "version": 1 + n % 3, "via": "cli" if n % 4 == 0 else "lib", "clauses": ["C12.auto"]})
+        for lay in lays:
+            autos.append({"op": "autocreate", "size": str(50000 + len(lay)), "layout": lay, "version": 2, "via": "lib",
+                          "clauses": ["C12.auto"]})
+        out += sorted(autos, key=lambda c: (int(c["size"]), c["op"] != "auto"))
         for c in out:
-            c["grp"] = "auto" if c["op"] == "auto" else "n"
+            c["grp"] = "auto" if c["op"] in ("auto", "autocreate") else "n"
         return out
 
     def corruptions(self, recs):
@@ -118,10 +133,12 @@ class C12(Prop):
     def nontrivial(self, case):
         if case["op"] == "auto":
             return ("auto", case["size"])
+        if case["op"] == "autocreate":
+            return ("autocreate", case["size"], case["layout"], case["version"], case["via"])
         return (case["via"], case["x"].get("value", case["x"].get("text")), case["x"]["kind"])
 
     def signature(self, case, rec, clause):
-        if not case or case["op"] == "auto":
+        if not case or case["op"] in ("auto", "autocreate"):
             return clause
         return "%s/%s" % (clause, case["via"])
 
